@@ -3,6 +3,7 @@
 -/
 import CubedModel.Proofs.Dag
 import CubedModel.Proofs.Optimize
+import CubedModel.Proofs.OptimizeSound
 
 namespace Cubed.C02
 
@@ -116,6 +117,56 @@ theorem C02_single_consumer (d : Opt.DagRec) (a : String) (s o : Opt.OpRec) (hs 
     (h1 : Opt.outDegreeUnique d a = 1) : o = s :=
   Opt.single_consumer d a s o hs ho hsa hoa h1
 
+/-- (i) **Structural guard ⇒ semantic side conditions.**  `Opt.canFuse` / `Opt.fusePreds` is the layer that is
+compared with the real `can_fuse_predecessors` / `fuse_predecessors` on every generated plan.  When that guard
+answers True on a record dag describing (`Opt.Shadow`) a semantic plan `pre ++ s :: post`, then for the ops the
+structural rewrite removes (`Opt.removedSel triples`): no other op reads a removed array (`StepOK.only`), no
+requested array is removed (the `FuseSeq.step` premise), and each removed op has exactly one output. -/
+theorem C02_guards_imply_side_conditions {V : Type} (d : Opt.DagRec) (o : Opt.OpRec) (ps : Opt.Params)
+    (pre : List (Op V)) (s : Op V) (post : List (Op V)) (triples : List (Opt.OpRec × String × Bool))
+    (ho : o ∈ d.ops) (hdesc : Opt.Describes o s)
+    (hsrc : ∀ a ∈ o.sources, o.inEdges.contains a = true)
+    (hsh : Opt.Shadow d (pre ++ s :: post))
+    (hnames : ((pre ++ s :: post).map (·.name)).Nodup)
+    (hcan : Opt.canFuse d o ps = some true) (hpoa : Opt.poa d o = some triples) :
+    (∀ x ∈ pre ++ post, ∀ m ∈ x.sources, m ∉ outs (pre.filter (Opt.removedSel triples))) ∧
+    (∀ n ∈ ps.arrayNames, n ∉ outs (pre.filter (Opt.removedSel triples))) ∧
+    (∀ p ∈ pre, Opt.removedSel triples p = true → ∃ n, p.outputs = [n]) :=
+  Opt.guards_imply_side_conditions d o ps pre s post triples ho hdesc hsrc hsh hnames hcan hpoa
+
+/-- (j) **One accepted step of the structural optimizer preserves every requested block.**  Combines (b) and (i):
+the dag-shaped premises of `StepOK` are *derived* from the structural guard; what remains as hypotheses is
+well-formedness of the plan (distinct array and op names, topological order, key functions read declared
+sources), that a single-output op writes its result as is, and the two key-function hypotheses validated on
+every real key function by the check (`NameIndep` of the removed ops, `Unfused` arguments of `s`). -/
+theorem C02_structural_step_preserves {V : Type} (d : Opt.DagRec) (o : Opt.OpRec) (ps : Opt.Params)
+    (pre : List (Op V)) (s : Op V) (post : List (Op V)) (triples : List (Opt.OpRec × String × Bool))
+    (newSources : List String) (base : CK → V)
+    (ho : o ∈ d.ops) (hdesc : Opt.Describes o s)
+    (hsrc : ∀ a ∈ o.sources, o.inEdges.contains a = true)
+    (hsh : Opt.Shadow d (pre ++ s :: post))
+    (hnames : ((pre ++ s :: post).map (·.name)).Nodup)
+    (hcan : Opt.canFuse d o ps = some true) (hpoa : Opt.poa d o = some triples)
+    (hnodup : (outs (pre ++ s :: post)).Nodup) (htopo : Topo (pre ++ s :: post))
+    (hreads : ∀ x ∈ pre ++ s :: post, ReadsFrom x)
+    (hproj : ∀ p ∈ pre, p.outputs.length = 1 → ∀ v, p.proj 0 v = some v)
+    (hni : ∀ p ∈ pre, Opt.removedSel triples p = true → NameIndep p.spec)
+    (hunf : ∀ c, ∀ t ∈ (s.spec.keyfn ⟨"out", c⟩).args, Tree.Unfused t) :
+    ∀ k : CK, k.name ∈ ps.arrayNames →
+      denote (pre ++ s :: post) base k
+        = denote (fuseStep pre s post (Opt.removedSel triples) newSources) base k := by
+  obtain ⟨honly, hreq, hone⟩ :=
+    C02_guards_imply_side_conditions d o ps pre s post triples ho hdesc hsrc hsh hnames hcan hpoa
+  have hok : StepOK pre s post (Opt.removedSel triples) :=
+    { nodup := hnodup, topo := htopo, reads := hreads,
+      single := by
+        intro p hp hsel
+        obtain ⟨n, hn⟩ := hone p hp hsel
+        exact ⟨n, ⟨hn, hproj p hp (by rw [hn]; rfl)⟩, hni p hp hsel⟩
+      only := honly, unfused := hunf }
+  intro k hk
+  exact C02_fuse_step_preserves pre s post _ newSources base hok k (hreq _ hk)
+
 /-! Non-vacuity: a three-op chain `x → a → b` with `a` fused into `b` satisfies `StepOK`. -/
 
 def opA : Op Nat :=
@@ -151,5 +202,24 @@ example : StepOK [opA] opB [] (fun o => o.name == "op-a") where
 
 example : denote (fuseStep [opA] opB [] (fun o => o.name == "op-a") ["x"]) (fun _ => 5) ⟨"b", [0]⟩ = 12 := by
   decide
+
+/-! Non-vacuity of (i)/(j): a record dag describing `[opA] ++ opB :: []`, on which the structural guard accepts. -/
+
+def recA : Opt.OpRec :=
+  { name := "op-a", sources := ["x"], inEdges := ["x"], outputs := ["a"], isPrim := true, blockwise := true,
+    fusPred := true, fusSucc := true, numTasks := 4, numInputBlocks := [1], projMem := 50, allowedMem := 100,
+    targetChunkMem := 10 }
+def recB : Opt.OpRec :=
+  { recA with name := "op-b", sources := ["a"], inEdges := ["a"], outputs := ["b"] }
+def recX : Opt.OpRec :=
+  { recA with name := "op-x", sources := [], inEdges := [], outputs := ["x"], isPrim := false }
+def recDag : Opt.DagRec := { ops := [recX, recA, recB], virtual := [] }
+
+example : Opt.canFuse recDag recB { arrayNames := ["b"] } = some true := by decide
+example : (Opt.poa recDag recB).map (fun ts => ts.map (fun t => (t.1.name, t.2.1, t.2.2)))
+    = some [("op-a", "a", true)] := by decide
+example : Opt.Describes recA opA ∧ Opt.Describes recB opB := by
+  refine ⟨⟨rfl, rfl, ?_⟩, ⟨rfl, rfl, ?_⟩⟩ <;> intro m hm <;> simp [opA, opB] at hm <;> subst hm <;> decide
+example : Opt.removedSel (V := Nat) [(recA, "a", true)] opA = true := by decide
 
 end Cubed.C02
